@@ -147,12 +147,35 @@ def run (fn : String) (cfg : A.Cfg) (args : List String) : String × String :=
 /-- models of the standard library's namesakes (`Model/Std.lean`), compared with the real `strings`/`bytes` results -/
 def runM (fn : String) (cfg : A.Cfg) (args : List String) : String :=
   let a1 := parseHex (args.getD 0 "-")
-  let b2 := parseHex (args.getD 1 "-")
+  let s2 := args.getD 1 "-"
+  let b2 := parseHex s2
+  let i2 := parseInt s2
+  let c2 := UInt8.ofNat i2.toNat
   match fn with
   | "EqualFold" =>
     match (if cfg.pkg == .byt then Std.equalFoldB a1 b2 else Std.equalFoldS a1 b2) with
     | none => "HANG"
     | some b => fmtBool b
+  | "Compare" => toString (Std.compare a1 b2)
+  | "HasPrefix" => fmtBool (Std.hasPrefix a1 b2)
+  | "HasSuffix" => fmtBool (Std.hasSuffix a1 b2)
+  | "TrimPrefix" => fmtSlice (Std.trimPrefix a1 b2)
+  | "TrimSuffix" => fmtSlice (Std.trimSuffix a1 b2)
+  | "CutPrefix" => let s := Std.cutPrefix a1 b2; s!"{fmtSlice s.1},{fmtBool s.2}"
+  | "CutSuffix" => let s := Std.cutSuffix a1 b2; s!"{fmtSlice s.1},{fmtBool s.2}"
+  | "Index" => toString (Std.index a1 b2)
+  | "LastIndex" => toString (Std.lastIndex a1 b2)
+  | "Contains" => fmtBool (Std.contains a1 b2)
+  | "Count" => toString (Std.count a1 b2)
+  | "Cut" => let s := Std.cut a1 b2; s!"{fmtSlice s.1},{fmtSlice s.2.1},{fmtBool s.2.2}"
+  | "IndexAny" => toString (Std.indexAny a1 b2)
+  | "LastIndexAny" => toString (Std.lastIndexAny a1 b2)
+  | "ContainsAny" => fmtBool (Std.containsAny a1 b2)
+  | "IndexRune" => toString (Std.indexRune a1 i2)
+  | "ContainsRune" => fmtBool (Std.containsRune a1 i2)
+  | "IndexByte" => toString (Std.indexByte a1 c2)
+  | "IndexByteASCII" => toString (Std.indexByte a1 c2)
+  | "LastIndexByte" => toString (Std.lastIndexByte a1 c2)
   | _ => "-"
 
 partial def loop (h : IO.FS.Stream) (out : IO.FS.Stream) : IO Unit := do
